@@ -30,6 +30,8 @@ func appendShellSafeQuote(buf []byte, s string) []byte {
 				buf = append(buf, `\"`...)
 			case '$':
 				buf = append(buf, `\$`...)
+			case '`':
+				buf = append(buf, "\\`"...)
 			default:
 				buf = append(buf, byte(r))
 			}
